@@ -1,6 +1,7 @@
 """C07 - differences: panic-freedom, since = -until, zoned differences are zone-aware (narrow)."""
 from ..term import Terms, show, alts, is_call, walk
 from ..rules_e1 import run_e1, by_names
+from ..rules_dep import run_dep
 
 TYPES = {"zoned::Zoned": "zoned_until", "timestamp::Timestamp": "timestamp_until", "civil::date::Date": "date_until",
          "civil::datetime::DateTime": "datetime_until", "civil::time::Time": "time_until"}
@@ -23,6 +24,7 @@ def strip_neg(t, count):
 
 
 def run(ctx, rep):
+    run_dep(ctx, rep, "C07")
     prog = ctx.prog("Q")
     rep.notes.append("Does not decide a + s == b, balance or sign consistency of units.")
     roots = []
